@@ -380,6 +380,29 @@ def rule_flag_independence(rep: Report, repo: Repo, r1: str, r2: str) -> None:
     rep.floor(r2, 30, "undocumented-event rows")
 
 
+def rule_own_flag(rep: Report, repo: Repo, rule: str, kinds=None) -> None:
+    """An undocumented command of kind k is shown exactly when include_undocumented_<k> - the option of its own kind, with the
+    value in effect - is on: the flag is consulted, its two values differ in the entry, and no other kind's flag is read."""
+    rep.rule(rule, "an undocumented command consults include_undocumented_<its own kind> (entry iff on) and no other kind's option")
+    lm = model(repo)
+    for k in (kinds or FLAGGED):
+        rows = [r for r in lm.rows("UNDOC", k) if "exc" not in r.val and not r.error]
+        on = [r for r in rows if r.val.get("inc:" + k) is True]
+        off = [r for r in rows if r.val.get("inc:" + k) is False]
+        rep.check(bool(on) and bool(off), rule, WHERE, f"UNDOC {k}: include_undocumented_{k} consulted",
+                  f"include_undocumented_{k} does not control undocumented {k}() commands: the value configured for it has no effect",
+                  witness=f"include_undocumented_{k} set differently from the other switches")
+        for r in rows:
+            others = [a for a in r.val if a.startswith("inc:") and a != "inc:" + k]
+            rep.check(not others, rule, WHERE, row_case(r)[:90] + " other flags",
+                      f"undocumented {k}() consults {[o.replace('inc:', 'include_undocumented_') for o in others]}: another kind's option "
+                      f"decides whether it is shown", witness=f"include_undocumented_{k} and {others[0].replace('inc:', 'include_undocumented_') if others else ''} set differently")
+        for r in off:
+            rep.check(not (r.entries or r.attach), rule, WHERE, row_case(r)[:90] + " [off]",
+                      f"with include_undocumented_{k} off an undocumented {k}() is still documented ({r.summary()})")
+    rep.floor(rule, 3, "flag rows")
+
+
 def _state_key(r: Row) -> str:
     return ", ".join(f"{a}={b}" for a, b in sorted(r.val.items()) if not a.startswith("inc:") and a != "arity")
 
@@ -462,6 +485,14 @@ def _position_at_end(atom, value: bool) -> bool:
     from ..absint import is_const, show
     if not (isinstance(atom, tuple) and atom and atom[0] == "cmp" and atom[1] in (">=", ">", "==", "<", "<=", "!=")):
         return False
+    if atom[1] in ("==", "!=") and value == (atom[1] == "=="):
+        # `params[-1].upper() == "NAME"`: the last argument is the keyword itself
+        for x, y in ((atom[2], atom[3]), (atom[3], atom[2])):
+            if is_const(y) and isinstance(y[1], str):
+                while x[0] == "call" and x[1][0] == "attr" and x[1][2] in ("upper", "lower", "casefold") and not x[2]:
+                    x = x[1][1]
+                if x[0] == "sub" and x[2] == ("const", -1) and ("getText" in show(x[1]) or "single_argument" in show(x[1])):
+                    return True
     a, b = show(atom[2]), show(atom[3])
 
     def is_len(t):
